@@ -321,7 +321,9 @@ class Overlay(Widget, WidgetContainerMixin, WidgetContainerListContentsMixin, ty
             if self.width_type == WHSettings.GIVEN and self.width_amount:
                 return self.top_w.rows((self.width_amount,), focus) + extra_height
             if self.width_type == WHSettings.RELATIVE:
-                width = max(int(size[0] * self.width_amount / 100 + 0.5), (self.min_width or 0))
+                # as calculate_left_right_padding() does for the rendering: a share of what the margins leave
+                maxwidth = max(size[0] - (self.left or 0) - (self.right or 0), 0)
+                width = max(int(maxwidth * self.width_amount / 100 + 0.5), (self.min_width or 0))
                 return self.top_w.rows((width,), focus) + extra_height
 
         raise OverlayError(
